@@ -16,7 +16,7 @@ ChABS == {"A", "B", "*"}
 
 CM2 == {{}, {"A"}}
 CM4 == SUBSET ChAB
-CMS == {{}, {"A"}, {"B"}, {"A", "*"}}
+CMS == {{}, {"A"}, {"B", "*"}}
 RM2 == {{}, {"r1"}}
 RM3 == {{}, {"r1"}, {"r1", "r2"}}
 
@@ -34,6 +34,7 @@ GS3 == { G({<<"u1", "A">>}, {}),
          G({}, {}) }
 GS2 == { G({<<"u1", "A">>}, {}),
          G({<<"r1", "B">>}, {<<"u1", "r1">>}) }
+GM5 == GM4 \cup { G({<<"u2", "A">>, <<"r2", "B">>, <<"r1", "A">>}, {<<"u1", "r2">>, <<"u2", "r1">>}) }
 (* simulation: richer tables over two users and two roles *)
 GM8 == GM4 \cup { G({}, {}),
                   G({<<"u1", "A">>, <<"u2", "B">>}, {<<"u2", "r1">>}),
